@@ -813,6 +813,17 @@ def run_sizing(session, lc, case, res):
                       jd.total_gpu_count, exp['total'], exp['avail_g'],
                       exp['gpus']), ctx)
 
+    # a platform whose GPU node size is not configured cannot round GPUs to
+    # whole nodes - but the job still has to cover the GPUs that were asked
+    # for (nodes-sized pilots ask for none)
+    asked_g = case['size'].get('gpus', 0)
+    if exp['gpus'] is None and asked_g:
+        res.count('gpu_requests_without_gpu_node_size')
+        if not _is_int(jd.total_gpu_count) or jd.total_gpu_count < asked_g:
+            res.violation('job-gpus-below-request', '%s: total_gpu_count %r, '
+                          '%d gpus were requested' % (where, jd.total_gpu_count,
+                                                      asked_g), ctx)
+
     # -- what the agent is told ------------------------------------------------
     views = [('agent config', got['agent'])]
     if got['agent_file'] is not None:
